@@ -26,34 +26,46 @@ func C20(p *core.Program, r *core.Report) {
 	checkTwoPassSkeleton(p, r, "F1")
 
 	// ---- F2
-	cw := mustFunc(p, r, "F2", "(*"+extractorPkg+".ContentExtractor).createWebDocumentInfoFromPage")
-	if cw != nil {
+	ecFn := mustInl(p, r, "F2", "(*"+extractorPkg+".ContentExtractor).ExtractContent")
+	docElemLabel := ""
+	if ecFn != nil {
+		ec := p.Inlined(ecFn)
 		c := core.NewCanon(p)
-		nb := core.Calls(cw, func(ci ssa.CallInstruction) bool {
-			return core.IsCallTo(ci, "mod/internal/webdoc.NewWebDocumentBuilder")
-		})
-		nc := core.Calls(cw, func(ci ssa.CallInstruction) bool { return core.IsCallTo(ci, converterPkg+".NewDomConverter") })
-		cv := core.Calls(cw, func(ci ssa.CallInstruction) bool {
-			return core.IsCallTo(ci, "(*"+converterPkg+".DomConverter).Convert")
-		})
-		r.Add("F2", "each pass creates its own document builder", p.Pos(cw.Pos()), len(nb) == 1, fmt.Sprintf("%d NewWebDocumentBuilder calls", len(nb)))
-		r.Add("F2", "each pass creates its own converter", p.Pos(cw.Pos()), len(nc) == 1, fmt.Sprintf("%d NewDomConverter calls", len(nc)))
-		if len(nc) == 1 && len(nb) == 1 && len(cv) == 1 {
-			args := nc[0].Common().Args
-			r.Add("F2", "the converter receives the pass's flags", p.Pos(nc[0].Pos()), c.Of(args[0]) == "$1", "flags argument: "+c.Of(args[0]))
-			r.Add("F2", "the converter feeds the pass's own builder", p.Pos(nc[0].Pos()), core.StripConv(args[1]) == nb[0].(ssa.Value), "builder argument: "+c.Of(args[1]))
-			cargs := cv[0].Common().Args
-			r.Add("F2", "Convert runs on the converter of this pass", p.Pos(cv[0].Pos()), cargs[0] == nc[0].(ssa.Value), "")
-			r.Add("F2", "Convert is given the extractor's document element", p.Pos(cv[0].Pos()), c.Of(cargs[1]) == "$0.documentElement", "argument: "+c.Of(cargs[1]))
-			for _, ret := range core.Returns(cw) {
-				r.Add("F2", "the pass returns what its own builder built", p.Pos(ret.Pos()), c.Of(ret.Results[0]) == "webdoc.WebDocumentBuilder.Build("+c.Of(nb[0].(ssa.Value))+")", "returns "+c.Of(ret.Results[0]))
+		isCall := func(key string) func(ssa.CallInstruction) bool {
+			return func(ci ssa.CallInstruction) bool { return core.IsCallTo(ci, key) }
+		}
+		convs := core.Calls(ec, isCall(converterPkg+".NewDomConverter"))
+		builders := core.Calls(ec, isCall("mod/internal/webdoc.NewWebDocumentBuilder"))
+		converts := core.Calls(ec, isCall("(*"+converterPkg+".DomConverter).Convert"))
+		r.Add("F2", "ExtractContent has two conversion passes, each with its own converter", p.Pos(ecFn.Pos()), len(convs) == 2, fmt.Sprintf("%d NewDomConverter calls", len(convs)))
+		r.Add("F2", "each pass creates its own document builder", p.Pos(ecFn.Pos()), len(builders) == len(convs), fmt.Sprintf("%d NewWebDocumentBuilder calls for %d converters", len(builders), len(convs)))
+		usedBuilder := map[ssa.Value]bool{}
+		for _, nc := range convs {
+			args := nc.Common().Args
+			flag := c.Of(args[0])
+			b := core.StripConv(args[1])
+			_, fresh := b.(*ssa.Call)
+			ok := fresh && core.IsCallTo(b.(ssa.Instruction), "mod/internal/webdoc.NewWebDocumentBuilder") && !usedBuilder[b]
+			usedBuilder[b] = true
+			r.Add("F2", "converter("+flag+") feeds a builder of its own", p.Pos(nc.Pos()), ok, "builder argument: "+c.Of(args[1]))
+			n := 0
+			for _, cv := range converts {
+				if core.StripConv(cv.Common().Args[0]) == nc.(ssa.Value) {
+					n++
+					arg := c.Of(cv.Common().Args[1])
+					okArg := strings.HasPrefix(arg, "$0.‹") && strings.HasSuffix(arg, "html.Node›")
+					if okArg {
+						docElemLabel = strings.TrimPrefix(arg, "$0.")
+					}
+					r.Add("F2", "converter("+flag+") converts the extractor's document element", p.Pos(cv.Pos()), okArg, "argument: "+arg)
+				}
 			}
-		} else {
-			r.Add("F2", "createWebDocumentInfoFromPage shape", p.Pos(cw.Pos()), false, "expected one builder, one converter, one Convert call")
+			r.Add("F2", "converter("+flag+") runs once", p.Pos(nc.Pos()), n == 1, fmt.Sprintf("%d Convert calls on it", n))
 		}
 	}
-	conv := mustFunc(p, r, "F2", "(*"+converterPkg+".DomConverter).Convert")
+	conv := mustInl(p, r, "F2", "(*"+converterPkg+".DomConverter).Convert")
 	if conv != nil {
+		conv = p.Inlined(conv)
 		c := core.NewCanon(p)
 		walks := core.Calls(conv, func(ci ssa.CallInstruction) bool { return core.IsCallTo(ci, "mod/internal/domutil.WalkNodes") })
 		if len(walks) != 1 {
@@ -63,11 +75,11 @@ func C20(p *core.Program, r *core.Report) {
 			r.Add("F2", "Convert walks a deep clone of its argument", p.Pos(walks[0].Pos()), root == "dom.Clone($1,true)", "walk root: "+root)
 		}
 	}
-	// nothing else stores into ContentExtractor.documentElement after construction
-	nStores := 0
-	for _, fn := range p.ModFunctions(false) {
-		for _, b := range fn.Blocks {
-			for _, in := range b.Instrs {
+	// nothing but the constructor stores into the extractor's document element
+	if docElemLabel != "" {
+		ctor := mustInl(p, r, "F2", extractorPkg+".NewContentExtractor")
+		for _, fn := range p.ModFunctions(false) {
+			for _, in := range instrsOf(fn) {
 				st, ok := in.(*ssa.Store)
 				if !ok {
 					continue
@@ -76,20 +88,21 @@ func C20(p *core.Program, r *core.Report) {
 				if !ok {
 					continue
 				}
-				if core.NewCanon(p).Of(fa) == "&new(extractor.ContentExtractor).documentElement" || strings.HasSuffix(core.NewCanon(p).Of(fa), ".documentElement") {
-					nStores++
-					ok := strings.HasSuffix(fn.String(), "extractor.NewContentExtractor")
-					r.Add("F2", "documentElement is set only by the constructor: "+core.ShortKey(fn), p.Pos(st.Pos()), ok, "")
+				n := core.NamedOf(fa.X.Type())
+				if n == nil || n.Obj().Name() != "ContentExtractor" || !strings.HasSuffix(core.NewCanon(p).Of(fa), "."+docElemLabel) {
+					continue
 				}
+				ok = ctor != nil && inRegion(p, ctor, fn)
+				r.Add("F2", "the document element is set only by the constructor: "+core.ShortKey(fn), p.Pos(st.Pos()), ok, "")
 			}
 		}
 	}
-	r.Floor("F2", 8)
+	r.Floor("F2", 9)
 
 	// ---- F3
-	ve := mustFunc(p, r, "F3", "(*"+converterPkg+".DomConverter).visitElementNodeHandler")
+	ve, _ := walkHandlers(p, r, "F3")
 	if ve != nil {
-		reFlag := regexp.MustCompile(`^\(\$0\.flags & converter\.SkipUnlikelies\) == converter\.Default$`)
+		reFlag := regexp.MustCompile(`^\(\$0\.‹converter\.ConverterFlag› & converter\.SkipUnlikelies\) == converter\.Default$`)
 		// flag set <=> atom false. Cut the "flag set" edges.
 		cutFlagSet, m := core.CutAtoms(p, ve, reFlag, false)
 		r.Add("F3", "visitor tests the SkipUnlikelies flag", p.Pos(ve.Pos()), len(m) >= 1, fmt.Sprintf("%d branches", len(m)))
@@ -128,12 +141,19 @@ func C20(p *core.Program, r *core.Report) {
 			}
 		}
 		r.Add("F3", "two flag-dependent skips (class/id and role)", p.Pos(ve.Pos()), nFlagReturns == 2, fmt.Sprintf("%d returns depend on the flag", nFlagReturns))
-	}
-	// readers of the patterns / role table
-	for _, g := range []string{"rxUnlikelyCandidates", "rxOkMaybeItsACandidate", "unlikelyRoles"} {
-		users := globalReaders(p, core.ExpandKey(converterPkg), g)
-		ok := len(users) == 1 && strings.HasSuffix(users[0], "visitElementNodeHandler")
-		r.Add("F3", "converter."+g+" is read only by the element visitor", "", ok, fmt.Sprintf("readers: %v", users))
+		// readers of the patterns / role table
+		for _, g := range []string{"rxUnlikelyCandidates", "rxOkMaybeItsACandidate", "unlikelyRoles"} {
+			users := globalReaderFuncs(p, core.ExpandKey(converterPkg), g)
+			ok := len(users) >= 1
+			var names []string
+			for _, u := range users {
+				names = append(names, core.ShortKey(u))
+				if !inRegion(p, ve, u) {
+					ok = false
+				}
+			}
+			r.Add("F3", "converter."+g+" is read only by the element visitor", "", ok, fmt.Sprintf("readers: %v", names))
+		}
 	}
 }
 
@@ -147,24 +167,29 @@ func keys(m map[string]bool) []string {
 
 // globalReaders lists module functions (except init) that reference the package-level variable.
 func globalReaders(p *core.Program, pkgPath, name string) []string {
-	seen := map[string]bool{}
+	var out []string
+	for _, f := range globalReaderFuncs(p, pkgPath, name) {
+		out = append(out, core.ShortKey(f))
+	}
+	return out
+}
+
+// globalReaderFuncs lists module functions (except init) that reference the package-level variable.
+func globalReaderFuncs(p *core.Program, pkgPath, name string) []*ssa.Function {
+	seen := map[*ssa.Function]bool{}
+	var out []*ssa.Function
 	for _, fn := range p.ModFunctions(true) {
 		if fn.Name() == "init" {
 			continue
 		}
-		for _, b := range fn.Blocks {
-			for _, in := range b.Instrs {
-				for _, op := range in.Operands(nil) {
-					if g, ok := (*op).(*ssa.Global); ok && g.Name() == name && g.Pkg.Pkg.Path() == pkgPath {
-						seen[core.ShortKey(fn)] = true
-					}
+		for _, in := range instrsOf(fn) {
+			for _, op := range in.Operands(nil) {
+				if g, ok := (*op).(*ssa.Global); ok && g.Name() == name && g.Pkg.Pkg.Path() == pkgPath && !seen[fn] {
+					seen[fn] = true
+					out = append(out, fn)
 				}
 			}
 		}
-	}
-	var out []string
-	for k := range seen {
-		out = append(out, k)
 	}
 	return out
 }
@@ -172,35 +197,80 @@ func globalReaders(p *core.Program, pkgPath, name string) []string {
 // checkTwoPassSkeleton: ExtractContent returns document and word count of the same pass; the
 // second pass (Default) is taken iff the first (SkipUnlikelies) yields <= 499 words.
 func checkTwoPassSkeleton(p *core.Program, r *core.Report, rule string) {
-	ec := mustFunc(p, r, rule, "(*"+extractorPkg+".ContentExtractor).ExtractContent")
-	if ec != nil {
-		opts := core.DecisionOpts{ResolvePhis: true, Outcome: func(in ssa.Instruction, c *core.Canon) (string, bool) {
+	ecFn := mustInl(p, r, rule, "(*"+extractorPkg+".ContentExtractor).ExtractContent")
+	if ecFn == nil {
+		return
+	}
+	ec := p.Inlined(ecFn)
+	// pass of a value: the flags of the converter that fed the builder the value was built from
+	builderFlags := map[ssa.Value]string{}
+	plain := core.NewCanon(p)
+	for _, in := range instrsOf(ec) {
+		if core.IsCallTo(in, converterPkg+".NewDomConverter") {
+			args := in.(ssa.CallInstruction).Common().Args
+			builderFlags[core.StripConv(args[1])] = plain.Of(args[0])
+		}
+	}
+	var passOf func(c *core.Canon, v ssa.Value, depth int) string
+	passOf = func(c *core.Canon, v ssa.Value, depth int) string {
+		v = c.Resolve(v)
+		if f, ok := builderFlags[v]; ok {
+			return f
+		}
+		if depth > 8 {
+			return "?"
+		}
+		if call, ok := v.(*ssa.Call); ok {
+			res := "?"
+			for _, a := range call.Call.Args {
+				if s := passOf(c, a, depth+1); s != "?" {
+					if res != "?" && res != s {
+						return "mixed"
+					}
+					res = s
+				}
+			}
+			return res
+		}
+		return "?"
+	}
+	opts := core.DecisionOpts{ResolvePhis: true,
+		Outcome: func(in ssa.Instruction, c *core.Canon) (string, bool) {
 			if ret, ok := in.(*ssa.Return); ok && len(ret.Results) == 2 {
-				return "return " + c.Of(ret.Results[0]) + " , " + c.Of(ret.Results[1]), true
+				return "document of pass(" + passOf(c, ret.Results[0], 0) + "), word count of pass(" + passOf(c, ret.Results[1], 0) + ")", true
+			}
+			return "", false
+		},
+		Event: func(in ssa.Instruction, c *core.Canon) (string, bool) {
+			if core.IsCallTo(in, converterPkg+".NewDomConverter") {
+				return "convert(" + c.Of(in.(ssa.CallInstruction).Common().Args[0]) + ")", true
+			}
+			if iff, ok := in.(*ssa.If); ok {
+				if bo, ok := core.StripConv(iff.Cond).(*ssa.BinOp); ok {
+					for _, side := range []ssa.Value{bo.X, bo.Y} {
+						if ps := passOf(c, side, 0); ps != "?" {
+							return "test word count of pass(" + ps + ")", true
+						}
+					}
+				}
 			}
 			return "", false
 		}}
-		paths, atoms, err := core.EnumerateDecisions(p, ec, opts)
-		if err != nil {
-			r.Undecided(rule, "ExtractContent", err.Error())
-		}
-		cr := func(flag string) string {
-			return `extractor.ContentExtractor.createWebDocumentInfoFromPage($0,converter.` + flag + `)`
-		}
-		pd := func(doc string) string { return `extractor.ContentExtractor.processDocument($0,` + doc + `)` }
-		spec := core.DecisionSpec{
-			Atoms: map[string]string{
-				"first.pass.below.500": q(pd(cr("SkipUnlikelies")) + ` <= 499`),
-			},
-			Rules: []core.SpecRule{
-				{Name: "fewer than 500 words: second pass without pruning", Guard: core.A("first.pass.below.500"), Outcome: "return " + cr("Default") + " , " + pd(cr("Default"))},
-				{Name: "enough words: pruned result", Guard: core.True(), Outcome: "return " + cr("SkipUnlikelies") + " , " + pd(cr("SkipUnlikelies"))},
-			},
-		}
-		core.CheckDecisionList(r, rule, "ExtractContent", paths, atoms, spec)
-		// no extra branch may influence the choice: exactly the documented atom (other conditions
-		// would make the choice depend on something else)
-		r.Add(rule, "ExtractContent: the word-count threshold is the only branch", p.Pos(ec.Pos()), len(atoms) == 1, fmt.Sprintf("branch conditions: %v", keys(atoms)))
+	paths, atoms, err := core.EnumerateDecisions(p, ec, opts)
+	if err != nil {
+		r.Undecided(rule, "ExtractContent", err.Error())
 	}
-
+	first, second := "convert(converter.SkipUnlikelies); test word count of pass(converter.SkipUnlikelies)", "; convert(converter.Default)"
+	spec := core.DecisionSpec{
+		Atoms: map[string]string{
+			"first.pass.below.500": `^webdoc\.TextDocument\.CountWordsInContent\(.*\) <= 499$`,
+		},
+		Rules: []core.SpecRule{
+			{Name: "fewer than 500 words: second pass without pruning", Guard: core.A("first.pass.below.500"),
+				Outcome: first + second + " => document of pass(converter.Default), word count of pass(converter.Default)"},
+			{Name: "enough words: pruned result", Guard: core.True(),
+				Outcome: first + " => document of pass(converter.SkipUnlikelies), word count of pass(converter.SkipUnlikelies)"},
+		},
+	}
+	core.CheckDecisionList(r, rule, "ExtractContent", paths, atoms, spec)
 }
